@@ -20,6 +20,14 @@ fn prune_sound(p: &ExpressionPredicate, ka: u8, kb: u8, kl: u8, nan_free: bool) 
     let st: PropertyStorage<NodeId> = PropertyStorage::new();
     let key = PropertyKey::new("k");
     let (a, b, lit) = (operand(ka), operand(kb), operand(kl));
+    // open known finding c10_mixed_column_beyond_2p53 (KNOWN_FINDINGS.txt): a column mixing integers beyond 2^53 with floats
+    #[cfg(feature = "kf_c10_mixed_column_beyond_2p53")]
+    if (ka == 2 && kb == 3) || (ka == 3 && kb == 2) {
+        const LIM: i64 = 1 << 53;
+        if let Value::Int64(i) = &a { kani::assume(*i >= -LIM && *i <= LIM); }
+        if let Value::Int64(i) = &b { kani::assume(*i >= -LIM && *i <= LIM); }
+        if let Value::Int64(i) = &lit { kani::assume(*i >= -LIM && *i <= LIM); }
+    }
     if nan_free {
         if let Value::Float64(f) = &a { kani::assume(!f.is_nan()); }
         if let Value::Float64(f) = &b { kani::assume(!f.is_nan()); }
@@ -109,4 +117,29 @@ c10_h!(c10_prune_int_float_column, {
     let m1 = prune_sound(&p, 2, 3, 2, true); let m2 = prune_sound(&p, 3, 2, 3, true);
     kani::cover!(m1 && m2);
     std::mem::forget(p);
+});
+
+//@ property: C10
+//@ tier: quick
+//@ cap_s: 600
+//@ mem_gb: 10
+//@ expect: fail
+//@ stubs: parking_lot slow paths, alloc::fmt::format, RandomState::new, regex::Regex::new
+//@ encodes: PropertyStorage::{set,might_match}, ZoneMapEntry::might_contain_less_than, ExpressionPredicate::compare_values
+//@ symbolic: nothing (the concrete witness of the open finding)
+//@ bound: column {Int64(2^53+1), Float64(2^53)}, predicate k <= Int64(2^53)
+//@ oracle: witness of the open known finding c10_mixed_column_beyond_2p53: asserts that pruning does not answer 'no match' (it does: min stays Int64(2^53+1) because the float compares equal to it in f64, and the Int64 probe is compared exactly)
+c10_h!(kf_c10_mixed_column_beyond_2p53_still_fails, {
+    let p = pred();
+    let st: PropertyStorage<NodeId> = PropertyStorage::new();
+    let key = PropertyKey::new("k");
+    let big: i64 = (1 << 53) + 1;
+    st.set(NodeId::new(1), key.clone(), Value::Int64(big));
+    st.set(NodeId::new(2), key.clone(), Value::Float64(9007199254740992.0));
+    let lit = Value::Int64(1 << 53);
+    let matches = filter_true(&p, &Value::Float64(9007199254740992.0), BinaryFilterOp::Le, &lit);
+    assert!(matches);
+    kani::cover!(true);
+    assert!(st.might_match(&key, CompareOp::Le, &lit), "pruning says 'no match' although the filter matches a stored value");
+    std::mem::forget((st, key, p));
 });
